@@ -1,0 +1,9 @@
+//go:build verif
+
+// Contracts for package user/server (comment-only; read by /verif/govc).
+
+package server
+
+//@ func New
+//@   assigns nothing
+//@   ensures [user-or-error] implies(isnil(result1), result0 != nil && result0.Name == name) && implies(!isnil(result1), result0 == nil)
